@@ -25,15 +25,48 @@ LAYOUTS = {
 Y_ACS = [(UY['P'], POST, 0), (UY['R'], REDIR, 1)]
 
 
+def md_x(acs):
+    mdx = world.sp_md(X, acs=acs, slo=SLO_X, extra='')
+    # manage-name-id endpoint for X
+    return mdx.replace('<md:AssertionConsumerService', '<md:ManageNameIDService Binding="%s" Location="%s"/><md:AssertionConsumerService' % (SOAP, MNI_X[0][0]), 1)
+
+
+def md_y():
+    return world.sp_md(Y, keys=(('spY', 'signing'),), acs=Y_ACS, slo=SLO_Y)
+
+
 def server(layout):
     if layout not in _c:
-        mdx = world.sp_md(X, acs=LAYOUTS[layout], slo=SLO_X,
-                          extra='')
-        # manage-name-id endpoint for X
-        mdx = mdx.replace('<md:AssertionConsumerService', '<md:ManageNameIDService Binding="%s" Location="%s"/><md:AssertionConsumerService' % (SOAP, MNI_X[0][0]), 1)
-        mdy = world.sp_md(Y, keys=(('spY', 'signing'),), acs=Y_ACS, slo=SLO_Y)
-        _c[layout] = world.make_idp(TMP[0], [mdx, mdy])
+        _c[layout] = world.make_idp(TMP[0], [md_x(LAYOUTS[layout]), md_y()])
     return _c[layout]
+
+
+REFRESH = ('drop-endpoints', 'drop-sp')
+
+
+def refreshed_acs(layout, how):
+    """X's consumer endpoints after the metadata refresh"""
+    return LAYOUTS[layout][:1] if how == 'drop-endpoints' else []
+
+
+def refreshed_server(layout, how, warm):
+    """A private Server whose metadata file for X is rewritten and reloaded under the same key after `warm`
+    lookups were served from it."""
+    import os, tempfile
+    d = tempfile.mkdtemp(prefix='refresh-', dir=TMP[0])
+    srv = world.make_idp(d, [md_x(LAYOUTS[layout]), md_y()])
+    for u, b in warm:
+        try:
+            srv.response_args(build_msg('AuthnRequest', u, None, b, 'X'))
+        except Exception:
+            pass
+    path = world.write_md(d, md_x(LAYOUTS[layout]))
+    assert path in srv.metadata.metadata, sorted(srv.metadata.metadata)
+    new = md_x(refreshed_acs(layout, how)) if how == 'drop-endpoints' else world.sp_md('urn:vp:spZ', acs=[('https://spz.example/acs', POST, 0)])
+    with open(path, 'w', encoding='utf-8') as f:
+        f.write(new)
+    srv.metadata.load('local', path)
+    return srv
 
 
 def url_variants(layout):
@@ -62,12 +95,22 @@ def cells(thorough):
         for iss in ('Y', 'unknown'):
             out.append(('AuthnRequest@after-X', layout, LAYOUTS[layout][0][0], None, None, iss, None))
             out.append(('AuthnRequest@after-X', layout, LAYOUTS[layout][0][0], None, LAYOUTS[layout][0][1], iss, None))
+        # non-initial state: lookups for X served, then X's metadata source refreshed (same key) with fewer endpoints
+        # or without X; a request naming a de-registered address follows
+        if len(LAYOUTS[layout]) > 1:
+            for how in REFRESH:
+                for u, b in [(t[0], t[1]) for t in LAYOUTS[layout]] + [(None, None)]:
+                    out.append(('AuthnRequest@refresh:' + how, layout, u, None, None, 'X', None))
+                    if b is not None:
+                        out.append(('AuthnRequest@refresh:' + how, layout, u, None, b, 'X', None))
     return out
 
 
 def registered(kind, layout, iss):
     """(location, binding) pairs the requester's own metadata registers for the relevant service."""
     if kind.startswith('AuthnRequest'):
+        if iss == 'X' and '@refresh:' in kind:
+            return [(t[0], t[1]) for t in refreshed_acs(layout, kind.split(':')[1])]
         if iss == 'X':
             return [(t[0], t[1]) for t in LAYOUTS[layout]]
         if iss == 'Y':
@@ -96,7 +139,10 @@ def evaluate(cell):
     env.Clock.set(env.BASE)
     if kind.endswith('@after-X'):
         _c.pop(layout, None)
-    srv = server(layout)
+    if '@refresh:' in kind:
+        srv = refreshed_server(layout, kind.split(':')[1], [(t[0], t[1]) for t in LAYOUTS[layout]])
+    else:
+        srv = server(layout)
     if kind.endswith('@after-X'):
         try:
             srv.response_args(build_msg('AuthnRequest', url, None, pb, 'X'))
@@ -159,7 +205,7 @@ def run(ctx):
         'level': 'exploration',
         'coverage': {
             'evaluations': len(cs), 'distinct_nontrivial': len(nontriv), 'exhaustive': True, 'answered': ok, 'vacuous': ok == 0,
-            'rule': 'complete product: 6 SP metadata layouts (1-3 ACS endpoints over POST/Redirect/Artifact, two POST endpoints with isDefault, Redirect listed first, duplicate index, no index; SLO and ManageNameID endpoints; a second SP with its own URLs) x supplied consumer URL (absent, each registered, other SP\'s, unregistered, case-changed host, trailing slash, truncated, extra query, userinfo trick, empty) x index (absent, each known, unknown, non-numeric) x ProtocolBinding (absent, POST, Redirect, Artifact, unknown) x issuer (X, Y, unknown, absent); LogoutRequest / ManageNameIDRequest x issuer x bindings argument; plus the non-initial state "X asked first"; non-trivial = anything but a plain request of X',
+            'rule': 'complete product: 6 SP metadata layouts (1-3 ACS endpoints over POST/Redirect/Artifact, two POST endpoints with isDefault, Redirect listed first, duplicate index, no index; SLO and ManageNameID endpoints; a second SP with its own URLs) x supplied consumer URL (absent, each registered, other SP\'s, unregistered, case-changed host, trailing slash, truncated, extra query, userinfo trick, empty) x index (absent, each known, unknown, non-numeric) x ProtocolBinding (absent, POST, Redirect, Artifact, unknown) x issuer (X, Y, unknown, absent); LogoutRequest / ManageNameIDRequest x issuer x bindings argument; plus the non-initial states "X asked first" and "X served, then the metadata source of X reloaded under the same key with fewer endpoints / without X"; non-trivial = anything but a plain request of X',
             'samples': [{'cell': list(cs[i0]), 'result': res[i0]}], 'distinct_outcomes': len(hist), 'outcome_histogram': hist,
         },
         'assumptions': ['requests are built by parsing forged XML with the library\'s own *_from_string (no signature involved)',
